@@ -398,15 +398,18 @@ func c06EraseNest(x *c06X, fr *c05Frame, s ast.Stmt, st *c05State, bands []c06Ba
 		si := s0.clone()
 		e.transfer(fr, si, lp.init)
 		x.generic(si, lp)
-		so := e.assume(fr, si, lp.cond, false)
-		if so == nil {
-			return true // never stops on its condition (left otherwise: checked above)
-		}
 		d := neg1(le(V, last)) // last + 1 - V <= 0
 		if !lp.asc {
 			d = neg1(le(last, V))
 		}
-		return e.prove(so, d)
+		// every way the condition can fail (i < n && i < len(tail): either bound reached) puts V beyond the last cell;
+		// no way at all: the loop never stops on its condition (left otherwise: checked above)
+		for _, so := range e.assumeAlts(fr, si, lp.cond, false) {
+			if !e.prove(so, d) {
+				return false
+			}
+		}
+		return true
 	}
 	rowsOK := true
 	if rowLp != nil {
